@@ -36,6 +36,7 @@ import Midgard.Proofs.H5Dataset
 import Midgard.Proofs.H5Refs
 import Midgard.Proofs.H5Meta
 import Midgard.Proofs.H5Bits
+import Midgard.Proofs.H5Alias
 
 namespace Midgard.Props.C10
 open Midgard.H5Attr Midgard.H5 Midgard.Dataset
@@ -345,6 +346,33 @@ theorem alias_read_forward (file : File) (fa d : Nat) (k : Kind) (a : GAttrs) (p
     have : (name == a.fieldname) = false := by simpa using hne
     simp [this]
 
+/-- **an array held by several fields is stored once** — for *every* heap, dataset and level for which `Dataset.write`
+succeeds (no `Writable`): with `C` the memo of `_construct_memo`, every written leaf field's group is (`RepA`) either the
+array itself — exactly when `C` names this very field for the array (the last written field that holds it) — or a group
+without payload and without sub-groups whose `same_as` is the name `C` has for the array, which is not this field; and
+every name `C` has for an array is the full name of a written field holding that same array.  So of the fields that hold
+one array exactly one stores it and all others name that one. -/
+theorem shared_array_written_once (h : Heap) (d : DS) (lvl : Nat) (file : File) (hw : writeDS h d lvl = .ok file) :
+    RepA.RepLA (constructMemo lvl d.fields [] []) (restrictFields lvl d.fields) [] file.groups ∧
+    ∀ o name, (constructMemo lvl d.fields [] []).lookup o = some name → (o, name) ∈ leafPaths (restrictFields lvl d.fields) [] := by
+  have hmem : ∀ o name, (constructMemo lvl d.fields [] []).lookup o = some name →
+      (o, name) ∈ leafPaths (restrictFields lvl d.fields) [] := by
+    intro o name hl
+    rcases (constructMemo_mem lvl d.fields [] [] (o, name)).mp (wlookup_mem _ o name hl) with hx | hx
+    · simp at hx
+    · exact hx
+  refine ⟨?_, hmem⟩
+  simp only [writeDS] at hw
+  split at hw
+  · simp at hw
+  · rename_i groups mem memo' hws
+    cases hw
+    refine (writeFields_repA h lvl _ d.fields [] _ groups mem memo' (Stable.refl _) ?_ hws).1
+    intro o ho
+    rw [← leafPaths_fst _ []] at ho
+    obtain ⟨⟨a, q⟩, he, rfl⟩ := List.mem_map.mp ho
+    exact mem_keys ((constructMemo_mem lvl d.fields [] [] (a, q)).mpr (Or.inr he))
+
 def exAliasHeap : Heap :=
   let r3 : Row := [.num 1, .num 2, .num 3]
   [ { kind := .position, ndim := 2, cols := 3, rows := [r3, r3] },
@@ -394,3 +422,4 @@ end Midgard.Props.C10
 #print axioms Midgard.Props.C10.meta_written
 #print axioms Midgard.Props.C10.read_write_full
 #print axioms Midgard.Props.C10.bits_identical
+#print axioms Midgard.Props.C10.shared_array_written_once
